@@ -302,6 +302,30 @@ def gen_pairs(rng, n):
     return res
 
 
+def grid_pairs():
+    """deterministic: every dtype x 1-d / 2-d / 3-d x C / Fortran order with one element changed, and every ordered pair of
+    dtypes on the same 2-d data in Fortran order (dtype / shape / layout combinations, lead's hint 5)"""
+    out = []
+    shapes = [(4,), (2, 3), (2, 2, 2)]
+    for dt in DTYPES:
+        for sh in shapes:
+            size = int(np.prod(sh))
+            base = np.array([(i % 2 == 0) if dt == "bool" else (i / 2 if dt == "float64" else i) for i in range(size)], dtype=dt).reshape(sh)
+            for order in ("C", "F"):
+                a = np.array(base, order=order)
+                b = np.array(base, order="F" if order == "C" else "C")
+                idx = tuple(d - 1 for d in sh)
+                b[idx] = (not b[idx]) if dt == "bool" else b[idx] + 1
+                out.append((a, b, "grid_element_changed:%s:%dd:%s" % (dt, len(sh), order), False))
+                out.append((a, np.array(base, order="F" if order == "C" else "C"), "grid_copy:%s:%dd:%s" % (dt, len(sh), order), True))
+    data = np.arange(6).reshape(2, 3)
+    for d1 in DTYPES:
+        for d2 in DTYPES:
+            if d1 != d2:
+                out.append((np.asfortranarray(data.astype(d1)), data.astype(d2), "grid_dtype_pair:%s:%s" % (d1, d2), False))
+    return out
+
+
 def in_model(a):
     return isinstance(a, np.ndarray) and a.ndim >= 1 and a.dtype.name in DT_COQ
 
@@ -310,6 +334,7 @@ def stream_c02(ctx, pairs=None):
     """correspondence of DeepDiff on numeric arrays with Diff/NpModel.v np_run_diff / np_text_view"""
     if pairs is None:
         pairs = gen_pairs(ctx.rng, 100 if ctx.thorough else 12)
+    pairs = list(pairs) + grid_pairs()
     cases = []
     for (a, b, kind, is_copy) in pairs:
         if not (in_model(a) and in_model(b)):
